@@ -535,7 +535,8 @@ func (r *Rng) jvMutate(root *jv) *jv {
 				for i, k := range n.keys {
 					if k == "id" {
 						n.items[i] = []*jv{{kind: '#', s: "12"}, {kind: '#', s: "1.50"}, {kind: '#', s: "1e21"}, {kind: '#', s: "1e999"}, {kind: 'b', b: true},
-							{kind: 'a'}, {kind: 'o'}, {kind: 'n'}, {kind: '#', s: "-0"}, {kind: '#', s: "123456789012345678"}}[r.Intn(10)]
+							{kind: 'a'}, {kind: 'o'}, {kind: 'n'}, {kind: '#', s: "-0"}, {kind: '#', s: "123456789012345678"},
+							{kind: '#', s: "9223372036854775808"}, {kind: '#', s: "18446744073709551616"}, {kind: '#', s: "-1e19"}, {kind: '#', s: "1e300"}}[r.Intn(14)]
 					}
 				}
 				if !contains(n.keys, "id") && r.chance(1, 3) {
@@ -602,6 +603,11 @@ func genC07(r *Rng, e *Emitter, n int) {
 		{"feat", `null`}, {"feat", `{}`}, {"feat", `{"type":"Feature"}`}, {"feat", `{"type":"Feature","geometry":null,"properties":null}`},
 		{"feat", `{"type":"Feature","id":7,"geometry":{"type":"Point","coordinates":[1,2]},"properties":{"a":1}}`},
 		{"feat", `{"type":"Feature","id":1.50,"bbox":[1,2,3,4,5,6],"geometry":null}`}, {"feat", `{"type":"Feature","id":true}`},
+		// numeric ids at and beyond the int64 / uint64 / float53 boundaries
+		{"feat", `{"type":"Feature","id":9223372036854775807,"geometry":null}`}, {"feat", `{"type":"Feature","id":9223372036854775808,"geometry":null}`},
+		{"feat", `{"type":"Feature","id":18446744073709551616,"geometry":null}`}, {"feat", `{"type":"Feature","id":-36893488147419103232,"geometry":null}`},
+		{"feat", `{"type":"Feature","id":1e300,"geometry":null}`}, {"feat", `{"type":"Feature","id":9007199254740993,"geometry":null}`},
+		{"feat", `{"type":"Feature","id":-9223372036854775809,"geometry":null}`}, {"feat", `{"type":"Feature","id":4.0e3,"geometry":null}`},
 		{"feat", `{"type":"Feature","bbox":[1,2,3]}`}, {"feat", `{"type":"Feature","bbox":[]}`}, {"feat", `{"type":"Feature","bbox":null}`},
 		{"feat", `{"type":"Feature","geometry":5}`}, {"feat", `{"type":"Feature","geometry":{"type":"Point","coordinates":[1,2]},"geometry":{"type":"LineString"}}`},
 		{"feat", `{"type":"Feature","properties":{"a":1},"properties":{"b":2,"a":3}}`}, {"feat", `{"type":"feature"}`},
